@@ -80,6 +80,29 @@ func checkURL(r *vp.Recorder, scheme, host, port, path string) {
 		return
 	}
 	u := &url.URL{Scheme: scheme, Host: hostPort(host, port), Path: path}
+	checkURLValue(r, key, u, scheme, host, port, path)
+}
+
+// checkParsedURL: the URL arrives as text, the way a publisher's configured
+// address or an announced address does, and is parsed with url.Parse. The
+// parsed value carries the path twice (decoded, and as written when the text
+// is not Go's canonical encoding of it: lower-case hex digits, escapes of
+// characters that need none, %2F); the path that has to survive the round
+// trip is the decoded one, whichever way it was written.
+func checkParsedURL(r *vp.Recorder, scheme, host, port, text string) {
+	key := fmt.Sprintf("parsed-url|%s|%s|%s|%q", scheme, host, port, text)
+	if !r.Mine(key) {
+		return
+	}
+	u, err := url.Parse(scheme + "://" + hostPort(host, port) + text)
+	if err != nil {
+		r.Count("url_texts_rejected_by_net_url", 1)
+		return
+	}
+	checkURLValue(r, key, u, scheme, host, port, u.Path)
+}
+
+func checkURLValue(r *vp.Recorder, key string, u *url.URL, scheme, host, port, path string) {
 	nontrivial := path != "" || port != ""
 	r.Eval(key, nontrivial)
 	var ma multiaddr.Multiaddr
@@ -184,8 +207,8 @@ func hostKind(h string) string {
 
 func TestCheck(t *testing.T) {
 	r := vp.New("C20", "exploration",
-		"URL round trip: nested loops over scheme x host x port x path (paths: every sequence of <=N symbols over all printable ASCII characters, 'é', '%2F', '%25', '//' after a leading '/'); a case is non-trivial when it has a port or a path; distinct = distinct (scheme,host,port,path). Helpers: every list of length <=4 over a 15-address alphabet incl. nil and duplicates, all pairs of lists of length <=3 for equality.",
-		"URLs are built as url.URL{Scheme,Host,Path} values; hosts are limited to 3 IPv4, 3 IPv6 (no zone, not v4-mapped) and 3 DNS names",
+		"URL round trip: nested loops over scheme x host x port x path (paths: every sequence of <=N symbols over all printable ASCII characters, 'é', '%2F', '%25', '//' after a leading '/'); URLs given as text and parsed with net/url: every printable ASCII character and 'é' written as a percent-escape in upper- and lower-case hex, alone, inside segments and in ordered pairs (the decoded path is what has to survive); a case is non-trivial when it has a port or a path; distinct = distinct (scheme,host,port,path). Helpers: every list of length <=4 over a 15-address alphabet incl. nil and duplicates, all pairs of lists of length <=3 for equality.",
+		"URLs are built as url.URL{Scheme,Host,Path} values, and (section 2b) parsed from text; hosts are limited to 3 IPv4, 3 IPv6 (no zone, not v4-mapped) and 3 DNS names",
 		"IPv6 hosts are compared as IP values, not as text",
 		"FilterPublic: link-local and other special ranges that are neither loopback, private (net.IP.IsPrivate) nor unspecified are accepted either way; nothing is required of nil entries",
 	)
@@ -240,6 +263,36 @@ func TestCheck(t *testing.T) {
 		// and paths with the interesting symbol in the middle of a longer path
 		for _, s := range syms {
 			checkURL(r, x.scheme, x.host, x.port, "/ipni/v1"+s+"ad/"+s)
+		}
+	}
+
+	// 2b. URLs given as text: every printable ASCII character and 'é' written as
+	// a percent-escape with upper-case and with lower-case hex digits (for most
+	// characters that is not the canonical encoding), alone, inside a segment,
+	// and every ordered pair of such escapes (thorough: over all characters;
+	// quick: second one from a reduced set)
+	var escs []string
+	for c := 0x20; c <= 0x7e; c++ {
+		escs = append(escs, fmt.Sprintf("%%%02X", c))
+		if l := fmt.Sprintf("%%%02x", c); l != escs[len(escs)-1] {
+			escs = append(escs, l)
+		}
+	}
+	escs = append(escs, "%C3%A9", "%c3%a9", "%c3%A9")
+	second := []string{"%2F", "%2f", "%7E", "%7e", "%41", "%2B", "%2b", "%25", "%20", "%c3%a9", "+", "é", "~", " "}
+	if vp.Thorough() {
+		second = append(append([]string{}, escs...), "+", "é", "~")
+	}
+	for _, x := range hps {
+		for _, e1 := range escs {
+			for _, tmpl := range []string{"/%s", "/a%sb", "/ipni/v1/%s/ad", "/caf%s/ad/", "//%s"} {
+				checkParsedURL(r, x.scheme, x.host, x.port, fmt.Sprintf(tmpl, e1))
+			}
+			for _, e2 := range second {
+				e2 := strings.ReplaceAll(e2, " ", "%20")
+				checkParsedURL(r, x.scheme, x.host, x.port, "/"+e1+e2)
+				checkParsedURL(r, x.scheme, x.host, x.port, "/x"+e2+"/"+e1)
+			}
 		}
 	}
 
